@@ -1198,6 +1198,11 @@ def store(
     arrays = []
     for s, t, r in zip(sources, targets, regions_list):
         slices = ArraySliceDep(s.chunks)
+        # A target is written to: what matters is which object it is, not what
+        # it currently holds.  Naming the layer after the target's content would
+        # give two equal-looking targets (e.g. two fresh ``np.zeros``) the same
+        # keys for the same source, and only one of them would be written.
+        target_id = t.key if isinstance(t, Delayed) else id(t)
         arrays.append(
             s.map_blocks(
                 load_store_chunk,  # type: ignore[arg-type]
@@ -1208,7 +1213,8 @@ def store(
                 lock=lock,
                 return_stored=return_stored,
                 load_stored=load_stored,
-                token="store-map",
+                name="store-map-"
+                + tokenize(s, target_id, r, return_stored, load_stored),
                 meta=s._meta,
             )
         )
@@ -3194,6 +3200,18 @@ def normalize_chunks(chunks, shape=None, limit=None, dtype=None, previous_chunks
     if -1 in chunks or None in chunks:
         chunks = tuple(s if c == -1 or c is None else c for c, s in zip(chunks, shape))
 
+    for c in chunks:
+        if (
+            isinstance(c, Number)
+            and c < 0
+            or isinstance(c, (tuple, list))
+            and any(isinstance(x, Number) and x < 0 for x in c)
+        ):
+            raise ValueError(
+                "Chunk sizes must not be negative (use -1 or None for a "
+                f"full dimension). Got chunks={chunks}"
+            )
+
     # If specifying chunk size in bytes, use that value to set the limit.
     # Verify there is only one consistent value of limit or chunk-bytes used.
     for c in chunks:
@@ -3222,11 +3240,6 @@ def normalize_chunks(chunks, shape=None, limit=None, dtype=None, previous_chunks
             raise ValueError(
                 "Empty tuples are not allowed in chunks. Express "
                 "zero length dimensions with 0(s) in chunks"
-            )
-        if min(c) < 0:
-            raise ValueError(
-                "Chunk sizes must not be negative (use -1 or None for a "
-                f"full dimension). Got chunks={chunks}"
             )
 
     if not allints and shape is not None:
